@@ -328,4 +328,4 @@ mod tests {
 // Verification hook (inert unless built by `cargo kani`): harnesses for the private items of this module.
 #[cfg(kani)]
 #[path = "/verif/kani/incrate/h_project.rs"]
-mod verif_kani;
+pub(crate) mod verif_kani;
